@@ -203,11 +203,105 @@ def gen(ctx, deep):
     return jobs
 
 
+COND_DOM = """[request_definition]
+r = sub, dom, obj, act
+[policy_definition]
+p = sub, dom, obj, act
+[role_definition]
+g = _, _, _, (_, _)
+[policy_effect]
+e = some(where (p.eft == allow))
+[matchers]
+m = g(r.sub, p.sub, r.dom) && r.dom == p.dom && r.obj == p.obj && r.act == p.act
+"""
+COND_USERS, COND_ROLES, COND_DOMS = ["alice", "bob"], ["admin", "user"], ["d1", "d2", "d3"]
+
+
+def _cond_case(args):
+    """conditional role links that carry a domain (g = _, _, _, (_, _)): link conditions are registered / replaced /
+    re-parameterised for domains OTHER than d1 and permission rules of other domains change; every decision and
+    domain-scoped role query in d1 must stay what it was (implementation side only: conditional managers are not in
+    the Lean enforcer model)"""
+    p, g, script = args
+    casbin = common.use_repo()
+    import policy_corr as pc
+
+    ad = pc.make_adapter(casbin, [("p", "p", r) for r in p] + [("g", "g", r + ["_", "_"]) for r in g])
+    e = casbin.Enforcer(casbin.Enforcer.new_model(text=COND_DOM), ad)
+    e.enable_auto_save(False)
+
+    def ask():
+        out = [bool(e.enforce(u, "d1", o, "read")) for u in COND_USERS + COND_ROLES for o in ("data1", "data2")]
+        crm = e.model.model["g"]["g"].cond_rm  # (the domain-scoped RBAC API reads the unconditional manager, which such a model does not have)
+        out += [bool(crm.has_link(u, r, "d1")) for u in COND_USERS for r in COND_ROLES]
+        return out
+
+    outs = [("start", ask())]
+    for op in script:
+        try:
+            if op[0] == "cond":
+                val = op[4]
+                ret = e.add_named_domain_link_condition_func("g", op[1], op[2], op[3], lambda *params, _v=val: _v)
+            elif op[0] == "params":
+                ret = e.set_named_domain_link_condition_func_params("g", op[1], op[2], op[3], "x", "y")
+            elif op[0] == "addp":
+                ret = e.add_policy(*op[1])
+            elif op[0] == "removep":
+                ret = e.remove_policy(*op[1])
+            else:
+                raise common.Infra("unknown op " + repr(op))
+            ret = repr(ret)
+        except common.Infra:
+            raise
+        except Exception as ex:  # noqa
+            ret = "!" + type(ex).__name__
+        outs.append((ret, ask()))
+    return outs
+
+
+def conditional_stream(ctx, res, deep):
+    rng = ctx["rng"]
+    PD = [[s, d, o, "read"] for s in COND_ROLES + COND_USERS[:1] for d in COND_DOMS for o in ("data1", "data2")]
+    GD = [[u, r, d] for u in COND_USERS for r in COND_ROLES for d in COND_DOMS]
+    for _ in range(60 if not deep else 600):
+        g = rng.sample(GD, rng.randint(2, 6))
+        e0 = rng.choice(g)
+        for d in COND_DOMS:  # often the same (user, role) pair in several domains
+            if rng.random() < 0.5 and [e0[0], e0[1], d] not in g:
+                g.append([e0[0], e0[1], d])
+        p = rng.sample(PD, rng.randint(2, 5))
+        script = []
+        for _k in range(rng.randint(1, 4)):
+            c = rng.random()
+            u, r, d = rng.choice(COND_USERS), rng.choice(COND_ROLES), rng.choice(COND_DOMS[1:])
+            if c < 0.6:
+                script.append(("cond", u, r, d, rng.random() < 0.5))
+            elif c < 0.7:
+                script.append(("params", u, r, d))
+            elif c < 0.85:
+                script.append(("addp", [rng.choice(COND_ROLES), d, rng.choice(["data1", "data2"]), "read"]))
+            else:
+                script.append(("removep", rng.choice([x for x in p if x[1] != "d1"] or [["nobody", d, "x", "read"]])))
+        outs = _cond_case((p, g, script))
+        base = outs[0][1]
+        res.nontrivial.add(hash(("cond", repr(p), repr(g), repr(script))))
+        for i, (ret, got) in enumerate(outs[1:]):
+            res.evaluations += 1
+            res.count("stream:conditional:" + script[i][0])
+            if got != base:
+                k = [j for j in range(len(got)) if got[j] != base[j]][0]
+                res.violation({"signature": f"C05:conditional:{script[i][0]}", "stream": "conditional", "p": p, "g": g, "script": [list(o) for o in script[: i + 1]],
+                               "what": f"conditional domain model, p = {p}, g = {g}: after {[list(o) for o in script[: i + 1]]} (all naming domains other than d1; last result {ret}) answer #{k} in d1 changed from {base[k]} to {got[k]}",
+                               "expected": base[k], "observed": got[k]})
+                break
+
+
 def run(ctx):
     res = common.Result()
     stages = [False] if not ctx["deep"] else ([True] if ctx["proof_ok"] else [False, True])
     for deep in stages:
         ec.run_configs(res, gen(ctx, deep), judge_factory(), fresh_oracle=False, extra="c05")
+        conditional_stream(ctx, res, deep)
         if res.spec_violations:
             break
     res.rule = (
@@ -222,6 +316,9 @@ def run(ctx):
 
 
 def replay(obj):
+    if obj.get("stream") == "conditional":
+        outs = _cond_case((obj["p"], obj["g"], [tuple(o) for o in obj["script"]]))
+        return outs[-1][1] != outs[0][1]
     case = obj["case"]
     c = case["config"]
     cfg = ec.Config(c["shape"], adapter=c["adapter"], watcher=c["watcher"], initial=c["initial"])
